@@ -2,31 +2,62 @@
 //@ target: src/observable.rs
 // derived operators whose builders cast closures / nested fns to fn pointers (outside Verus):
 // all, ignore_elements, count, sum, min, max, reduce, element_at, first_or, last_or — checked
-// end to end on the real code against their documented list semantics, for every input of up to
-// 3 symbolic items (from_iter source, recording observer).
+// end to end on the real code against their documented list semantics, for every input history
+// of up to 3 symbolic items followed by ANY terminal (none yet / complete / error).
 use crate::verif_probe::*;
-use std::convert::Infallible;
 
-
-fn any_input() -> ([u8; 3], usize) {
+#[derive(Clone, Copy, PartialEq)]
+enum Term { Open, Complete, Error(u8) }
+#[derive(Clone, Copy)]
+struct Script { n: usize, items: [u8; 3], term: Term }
+impl<O: Observer<u8, u8>> Observable<u8, u8, O> for Script {
+  type Unsub = ();
+  fn actual_subscribe(self, mut observer: O) {
+    let mut i = 0;
+    while i < self.n {
+      if observer.is_finished() { return; }
+      observer.next(self.items[i]);
+      i += 1;
+    }
+    match self.term { Term::Open => {}, Term::Complete => observer.complete(), Term::Error(e) => observer.error(e) }
+  }
+}
+impl ObservableExt<u8, u8> for Script {}
+fn any_script() -> Script {
   let n: usize = kani::any();
   kani::assume(n <= 3);
-  (kani::any(), n)
+  let t: u8 = kani::any();
+  let term = if t == 0 { Term::Open } else if t == 1 { Term::Complete } else { Term::Error(kani::any()) };
+  Script { n, items: kani::any(), term }
+}
+// what an operator that emits one aggregate `v` at completion must deliver for terminal `t`
+fn expect_aggregate(log: &LogRc, t: Term, v: Option<u8>) {
+  match t {
+    Term::Open => assert!(count(log) == 0),
+    // an input error is the only terminal: NO aggregate computed from the truncated input
+    Term::Error(e) => assert!(count(log) == 1 && at(log, 0) == Some(Ev::Error(e))),
+    Term::Complete => match v {
+      Some(v) => assert!(count(log) == 2 && at(log, 0) == Some(Ev::Next(v)) && at(log, 1) == Some(Ev::Complete)),
+      None => assert!(count(log) == 1 && at(log, 0) == Some(Ev::Complete)),
+    },
+  }
 }
 
-// [C03,C16] all(p): false as soon as one item fails p (and the stream ends there), else true at completion
+// [C03,C16] all(p): `false` + completion at the FIRST item failing p, whatever follows it (more
+// items, an error, nothing yet); otherwise `true` at completion, the bare error on an error
 //@ bounded: at most 3 items
 #[kani::proof]
 #[kani::unwind(6)]
 fn all_matches_list_semantics() {
-  let (items, n) = any_input();
+  let s = any_script();
   let t: u8 = kani::any();
   let log = new_log();
-  from_iter(items.into_iter().take(n)).all(move |v| v < t).actual_subscribe(Probe::new(&log));
-  let mut ok = true;
+  s.all(move |v| v < t).actual_subscribe(Probe::new(&log));
+  let mut fails = false;
   let mut i = 0;
-  while i < n { if !(items[i] < t) { ok = false; } i += 1; }
-  assert!(count(&log) == 2 && at(&log, 0) == Some(Ev::Next(ok as u8)) && at(&log, 1) == Some(Ev::Complete));
+  while i < s.n { if !(s.items[i] < t) { fails = true; } i += 1; }
+  if fails { assert!(count(&log) == 2 && at(&log, 0) == Some(Ev::Next(0)) && at(&log, 1) == Some(Ev::Complete)); }
+  else { expect_aggregate(&log, s.term, Some(1)); }
 }
 
 // [C03] ignore_elements: no item, only the terminal
@@ -34,38 +65,35 @@ fn all_matches_list_semantics() {
 #[kani::proof]
 #[kani::unwind(6)]
 fn ignore_elements_emits_only_terminal() {
-  let (items, n) = any_input();
+  let s = any_script();
   let log = new_log();
-  from_iter(items.into_iter().take(n)).ignore_elements().actual_subscribe(Probe::new(&log));
-  assert!(count(&log) == 1 && at(&log, 0) == Some(Ev::Complete));
+  s.ignore_elements().actual_subscribe(Probe::new(&log));
+  expect_aggregate(&log, s.term, None);
 }
 
-// [C03] count / sum (wrapping is excluded: u8 items widened) / min / max over the whole input;
-// min and max of an empty input emit nothing
+// [C03] count / sum / min / max over the whole input, emitted once at completion; nothing with an error
 //@ bounded: at most 3 items
 #[kani::proof]
 #[kani::unwind(6)]
 fn count_sum_min_max_match_list_semantics() {
-  let (items, n) = any_input();
+  let s = any_script();
   let which: u8 = kani::any();
   let log = new_log();
   let mut mn = 255u8; let mut mx = 0u8; let mut sum = 0usize;
   let mut i = 0;
-  while i < n { if items[i] < mn { mn = items[i]; } if items[i] > mx { mx = items[i]; } sum += items[i] as usize; i += 1; }
+  while i < s.n { if s.items[i] < mn { mn = s.items[i]; } if s.items[i] > mx { mx = s.items[i]; } sum += s.items[i] as usize; i += 1; }
   if which == 0 {
-    from_iter(items.into_iter().take(n)).count().actual_subscribe(Probe::new(&log));
-    assert!(count(&log) == 2 && at(&log, 0) == Some(Ev::Next(n as u8)) && at(&log, 1) == Some(Ev::Complete));
+    s.count().actual_subscribe(Probe::new(&log));
+    expect_aggregate(&log, s.term, Some(s.n as u8));
   } else if which == 1 {
-    from_iter(items.into_iter().take(n)).map(|v| v as usize).sum().actual_subscribe(Probe::new(&log));
-    assert!(count(&log) == 2 && at(&log, 0) == Some(Ev::Next(sum as u8)) && at(&log, 1) == Some(Ev::Complete));
+    s.map(|v| v as usize).sum().actual_subscribe(Probe::new(&log));
+    expect_aggregate(&log, s.term, Some(sum as u8));
   } else if which == 2 {
-    from_iter(items.into_iter().take(n)).min().actual_subscribe(Probe::new(&log));
-    if n == 0 { assert!(count(&log) == 1 && at(&log, 0) == Some(Ev::Complete)); }
-    else { assert!(count(&log) == 2 && at(&log, 0) == Some(Ev::Next(mn)) && at(&log, 1) == Some(Ev::Complete)); }
+    s.min().actual_subscribe(Probe::new(&log));
+    expect_aggregate(&log, s.term, if s.n == 0 { None } else { Some(mn) });
   } else {
-    from_iter(items.into_iter().take(n)).max().actual_subscribe(Probe::new(&log));
-    if n == 0 { assert!(count(&log) == 1 && at(&log, 0) == Some(Ev::Complete)); }
-    else { assert!(count(&log) == 2 && at(&log, 0) == Some(Ev::Next(mx)) && at(&log, 1) == Some(Ev::Complete)); }
+    s.max().actual_subscribe(Probe::new(&log));
+    expect_aggregate(&log, s.term, if s.n == 0 { None } else { Some(mx) });
   }
 }
 
@@ -74,24 +102,24 @@ fn count_sum_min_max_match_list_semantics() {
 #[kani::proof]
 #[kani::unwind(6)]
 fn element_at_first_or_last_or_match_list_semantics() {
-  let (items, n) = any_input();
+  let s = any_script();
   let which: u8 = kani::any();
   let k: usize = kani::any();
   kani::assume(k <= 4);
   let d: u8 = kani::any();
   let log = new_log();
   if which == 0 {
-    from_iter(items.into_iter().take(n)).element_at(k).actual_subscribe(Probe::new(&log));
-    if k < n { assert!(count(&log) == 2 && at(&log, 0) == Some(Ev::Next(items[k])) && at(&log, 1) == Some(Ev::Complete)); }
-    else { assert!(count(&log) == 1 && at(&log, 0) == Some(Ev::Complete)); }
+    s.element_at(k).actual_subscribe(Probe::new(&log));
+    // the k-th item ends the stream at once, whatever the source does afterwards
+    if k < s.n { assert!(count(&log) == 2 && at(&log, 0) == Some(Ev::Next(s.items[k])) && at(&log, 1) == Some(Ev::Complete)); }
+    else { expect_aggregate(&log, s.term, None); }
   } else if which == 1 {
-    from_iter(items.into_iter().take(n)).first_or(d).actual_subscribe(Probe::new(&log));
-    let e = if n > 0 { items[0] } else { d };
-    assert!(count(&log) == 2 && at(&log, 0) == Some(Ev::Next(e)) && at(&log, 1) == Some(Ev::Complete));
+    s.first_or(d).actual_subscribe(Probe::new(&log));
+    if s.n > 0 { assert!(count(&log) == 2 && at(&log, 0) == Some(Ev::Next(s.items[0])) && at(&log, 1) == Some(Ev::Complete)); }
+    else { expect_aggregate(&log, s.term, Some(d)); }
   } else {
-    from_iter(items.into_iter().take(n)).last_or(d).actual_subscribe(Probe::new(&log));
-    let e = if n > 0 { items[n - 1] } else { d };
-    assert!(count(&log) == 2 && at(&log, 0) == Some(Ev::Next(e)) && at(&log, 1) == Some(Ev::Complete));
+    s.last_or(d).actual_subscribe(Probe::new(&log));
+    expect_aggregate(&log, s.term, Some(if s.n > 0 { s.items[s.n - 1] } else { d }));
   }
 }
 
@@ -100,12 +128,12 @@ fn element_at_first_or_last_or_match_list_semantics() {
 #[kani::proof]
 #[kani::unwind(6)]
 fn reduce_initial_matches_fold() {
-  let (items, n) = any_input();
+  let s = any_script();
   let init: u8 = kani::any();
   let log = new_log();
-  from_iter(items.into_iter().take(n)).reduce_initial(init, |a: u8, v: u8| a.wrapping_mul(3).wrapping_add(v)).actual_subscribe(Probe::new(&log));
+  s.reduce_initial(init, |a: u8, v: u8| a.wrapping_mul(3).wrapping_add(v)).actual_subscribe(Probe::new(&log));
   let mut acc = init;
   let mut i = 0;
-  while i < n { acc = acc.wrapping_mul(3).wrapping_add(items[i]); i += 1; }
-  assert!(count(&log) == 2 && at(&log, 0) == Some(Ev::Next(acc)) && at(&log, 1) == Some(Ev::Complete));
+  while i < s.n { acc = acc.wrapping_mul(3).wrapping_add(s.items[i]); i += 1; }
+  expect_aggregate(&log, s.term, Some(acc));
 }
